@@ -273,6 +273,9 @@ def normalize(model):
     nsw = lower_switches(model)
     if nsw:
         notes.append("%d switch statement(s) lowered to if / else-if chains" % nsw)
+    nsc = split_small_struct_copies(model)
+    if nsc:
+        notes.append("%d whole-record copies of small records split into member stores" % nsc)
     nee = early_exit_form(model)
     if nee:
         notes.append("%d single-exit construct(s) with a result flag brought to early-exit form" % nee)
@@ -1168,6 +1171,40 @@ def early_exit_form(model):
                 blk["inner"] = b[:i] + [new_loop] + xlist + rest
                 n += 1
                 break
+    return n
+
+
+def split_small_struct_copies(model):
+    """`A = B;` as a statement, for a record type of at most four scalar / pointer members, becomes one store per member (the
+    rules read the members; a whole-record copy says nothing different)."""
+    n = 0
+    for f in model.funcs.values():
+        rel = model.rel(f.file) or ""
+        if not rel.startswith(("src/", "include/")) or f.body is None:
+            continue
+        for blk in walk(f.body):
+            if blk["kind"] != "CompoundStmt":
+                continue
+            out = []
+            for st in blk.get("inner") or []:
+                if st["kind"] == "BinaryOperator" and st.get("opcode") == "=":
+                    t = (st.get("type") or "").replace("const ", "").strip()
+                    if t.startswith("struct ") and not t.endswith("*"):
+                        rec = model.records.get(t[7:].strip())
+                        if rec and len(rec) <= 4 and all("[" not in ft and not ft.replace("const ", "").startswith(("struct ", "union ")) or ft.rstrip().endswith("*")
+                                                         for _fn, ft, _fd in rec) and \
+                                _pure_expr(kids(st)[0]) and _pure_expr(kids(st)[1]):
+                            for fn_, ft_, fd_ in rec:
+                                def mem(base):
+                                    b = copy.deepcopy(base)
+                                    return _mk("MemberExpr", [b], name=fn_, isArrow=False, type=ft_, file=st.get("file"), line=st.get("line"),
+                                               col=st.get("col"))
+                                out.append(_mk("BinaryOperator", [mem(kids(st)[0]), mem(kids(st)[1])], opcode="=", type=ft_,
+                                               file=st.get("file"), line=st.get("line"), col=st.get("col")))
+                            n += 1
+                            continue
+                out.append(st)
+            blk["inner"] = out
     return n
 
 
